@@ -32,7 +32,7 @@ type wfGen struct {
 }
 
 // error flavours a scripted callback can fail with (see mkErr)
-var errFlavors = []int{1, 2, 3, 4, 7, 8, 9, 10, 11}
+var errFlavors = []int{1, 2, 3, 4, 7, 8, 9, 10, 11, 14, 15}
 
 // (prefixes of each other, a case variant, the empty and the default action)
 var prefixActions = []string{"a", "ab", "abc", "Ab", "", "default"}
